@@ -2,6 +2,7 @@
 import json, os
 from .. import core
 from ..core import Run, ToolError
+from . import compof
 
 BOUNDS = {"quick": (3, 4, 2), "thorough": (4, 6, 3)}
 
@@ -45,14 +46,18 @@ def check(tier):
     import random
     random.Random(core.seed()).shuffle(cases)
     events = drive_and_validate(run, cases, shards=4 if tier == "quick" else 16)
-    run.cov["evaluations"] = len(cases)
+    # COMPONENTS OF clauses in front of the marker (CompOf.tla): what they bring in is root, nothing is an addition
+    co_cases, co_events = compof.family(run, tier, "extension")
+    run.case_of = lambda ev: co_cases[ev["case"]] if ev.get("ev") == "compof2" and ev.get("case", -1) < len(co_cases) else None
+    run.cov["evaluations"] = len(cases) + len(co_cases)
     run.cov["distinct_nontrivial"] = len({(e["asn"].split("::=", 1)[1], e["implied"]) for e in events
                                          if e["status"] == "ok" and any(x["t"] != "r" for x in e["layout"])})
     run.cov["exhaustive"] = True
     run.cov["rule"] = (f"TLC enumerates every component-list layout with <= {b[0]} root components, marker absent or at any position, "
                        f"<= {b[1]} components after the marker arranged as loose additions and <= {b[2]} version groups (with/without "
                        "version number) in every interleaving x {SEQUENCE, SET, CHOICE, ENUMERATED} x top-level/nested x "
-                       "EXTENSIBILITY IMPLIED on/off; non-trivial = compiled Ok and the layout has a marker; distinct by ASN.1 text")
+                       "EXTENSIBILITY IMPLIED on/off; non-trivial = compiled Ok and the layout has a marker; distinct by ASN.1 text. Plus the cases of CompOf.tla: "
+                       "SEQUENCEs whose components come from one or two COMPONENTS OF clauses (and inner clauses) in front of a marker: no addition, extensible iff marker")
     step = max(1, len(events) // 6)
     run.cov["samples"] = [{"asn": e["asn"], "implied": e["implied"], "status": e["status"], "observed_members": e["obs"],
                            "non_exhaustive": e["non_exhaustive"]} for e in events[::step][:8]]
@@ -65,6 +70,11 @@ def check(tier):
 def replay(payload):
     run = Run("C05", "quick")
     ev = payload["event"]
+    if ev.get("ev") == "compof2":
+        compof.replay_one(run, payload["case"], "extension")
+        for what, e in run.violations:
+            print("MISMATCH:", what)
+        return 1 if run.violations else 0
     case = {k: ev[k] for k in ("kind", "implied", "nested", "layout", "tags") if k in ev}
     # the case is compiled next to a neighbour module with the opposite extensibility default,
     # once with each alphabetical order of the two module names (state leaking between modules)
